@@ -60,7 +60,49 @@ class FalsyNode(PNode):
         return "F%d" % self.label
 
 
-CLASSES = {"nm": PNode, "light": LNode, "eq": EqNode, "falsy": FalsyNode}
+class ShadowNode(PNode):
+    """a user class that uses the names of the mixin's derived, read-only attributes for data of its own (a scene-graph
+    box with a geometric `depth`, a file entry with a `size`, ...): class-level values shadow the properties. Traversal is
+    defined by `children`/`parent` alone; iterators, Walker, Resolver never consult these names"""
+    depth = -7
+    size = -7
+    height = 0
+    is_leaf = True
+    is_root = False
+    siblings = ()
+    descendants = ()
+    leaves = ()
+
+    def __repr__(self):
+        return "S%d" % self.label
+
+
+class SortedView(PNode):
+    """a user class that overrides the public `children` attribute: the children are presented sorted by label, whatever
+    the order they were attached in (setter and deleter are the library's). Every derived attribute that is defined
+    through the children *relation* (siblings, descendants, leaves, left/right sibling) follows the public view"""
+
+    @property
+    def children(self):
+        return tuple(sorted(NodeMixin.children.fget(self), key=lambda n: n.label))
+
+    @children.setter
+    def children(self, value):
+        NodeMixin.children.fset(self, value)
+
+    @children.deleter
+    def children(self):
+        NodeMixin.children.fdel(self)
+
+    def __repr__(self):
+        return "V%d" % self.label
+
+
+def reversed_tree(t):
+    return [t[0], [reversed_tree(c) for c in reversed(t[1])]]
+
+
+CLASSES = {"nm": PNode, "light": LNode, "eq": EqNode, "falsy": FalsyNode, "shadow": ShadowNode}
 
 
 def build(tree, cls=PNode, parent=None, index=None):
